@@ -22,11 +22,27 @@ fn svc_exe() -> PathBuf {
 }
 
 struct Proc(Child);
+static KIDS: std::sync::Mutex<Vec<i32>> = std::sync::Mutex::new(Vec::new());
+impl Proc {
+    fn new(c: Child) -> Proc {
+        KIDS.lock().unwrap().push(c.id() as i32);
+        Proc(c)
+    }
+}
 impl Drop for Proc {
     fn drop(&mut self) {
         let _ = self.0.kill();
         let _ = self.0.wait();
     }
+}
+/// Report::finish() exits the process without running destructors: helper services are killed here
+fn finish(rep: &Report, args: &Args) -> ! {
+    for p in KIDS.lock().unwrap().iter() {
+        unsafe {
+            libc::kill(*p, libc::SIGKILL);
+        }
+    }
+    rep.finish(args)
 }
 
 fn machinery(msg: &str) -> ! {
@@ -47,7 +63,7 @@ fn wait_connectable(addr: &str) -> bool {
 
 fn spawn_service(addr: &str, iface: &str) -> Proc {
     let c = Command::new(svc_exe()).args(["serve", "--address", addr, "--iface", iface, "--idle", "60"]).stdin(Stdio::null()).stdout(Stdio::null()).stderr(Stdio::null()).spawn().unwrap_or_else(|e| machinery(&format!("cannot spawn verif-svc: {}", e)));
-    let p = Proc(c);
+    let p = Proc::new(c);
     if !wait_connectable(addr) {
         machinery(&format!("verif-svc did not come up at {}", addr));
     }
@@ -395,7 +411,7 @@ fn c16(args: &Args) -> ! {
             }
         }
     }
-    rep.finish(args)
+    finish(&rep, args)
 }
 
 // ================================================================================== C20
@@ -425,7 +441,7 @@ fn spawn_resolver(addr: &str, map: &[(String, String)]) -> Proc {
         c.arg("--map").arg(format!("{}={}", n, a));
     }
     let ch = c.stdin(Stdio::null()).stdout(Stdio::null()).stderr(Stdio::null()).spawn().unwrap_or_else(|e| machinery(&format!("cannot spawn resolver: {}", e)));
-    let p = Proc(ch);
+    let p = Proc::new(ch);
     if !wait_connectable(addr) {
         machinery(&format!("resolver did not come up at {}", addr));
     }
@@ -540,7 +556,7 @@ fn c20(args: &Args) -> ! {
             }
         }
     }
-    rep.finish(args)
+    finish(&rep, args)
 }
 
 // ================================================================================== C18
@@ -886,7 +902,7 @@ fn c18(args: &Args) -> ! {
             }
         }
     }
-    rep.finish(args)
+    finish(&rep, args)
 }
 
 fn main() {
